@@ -642,6 +642,10 @@ WBXML_DECLARE(WB_BOOL) wbxml_buffer_hex_to_binary(WBXMLBuffer *buffer)
     if ((buffer == NULL) || buffer->is_static)
         return FALSE;
 
+    /* Nothing to convert (and an empty buffer may have no data block at all) */
+    if (wbxml_buffer_len(buffer) == 0)
+        return TRUE;
+
     p = buffer->data;
     len = wbxml_buffer_len(buffer);
 
